@@ -3,6 +3,9 @@
 //! is read back with a real `ShmReader::snapshot` (both results are recorded and must agree).
 //!   upd <drift> <n> { r d e o leap interval kind secs nanos phc as_s as_n | m <grace> | p <grace> }*n
 //! -> <k> { as_s as_n va_s va_n bound drift status }*k   | panic
+//!   updt <drift> <n> { <off_ns> <message as above> }*n : the same, but the realtime clock reads
+//!   NOW + off while the corresponding message is processed (one publication per message, so the
+//!   clock is moved on after each publication); the report's reference time stays NOW - (secs, nanos).
 use crate::bound::{mk_tracking_aged, NOW_N, NOW_S};
 use crate::util::*;
 use crate::vclock;
@@ -19,6 +22,7 @@ struct Tee {
     r: Option<ShmReader>,
     path: std::ffi::CString,
     log: Rc<RefCell<Vec<(ClockErrorBound, ClockErrorBound)>>>,
+    offs: Vec<i64>,
 }
 
 impl ShmWrite for Tee {
@@ -29,6 +33,10 @@ impl ShmWrite for Tee {
         }
         let snap = *self.r.as_mut().unwrap().snapshot().expect("snapshot");
         self.log.borrow_mut().push((*ceb, snap));
+        let k = self.log.borrow().len();
+        if k < self.offs.len() {
+            set_now_plus(self.offs[k]);
+        }
     }
 }
 
@@ -48,7 +56,20 @@ fn fields(c: &ClockErrorBound) -> [i64; 7] {
     }
 }
 
+fn set_now_plus(off: i64) {
+    let t = NOW_S as i128 * 1_000_000_000 + NOW_N as i128 + off as i128;
+    vclock::set_real((t.div_euclid(1_000_000_000)) as i64, (t.rem_euclid(1_000_000_000)) as i64);
+}
+
 pub fn run(toks: &[&str]) -> String {
+    run_with(toks, false)
+}
+
+pub fn run_timed(toks: &[&str]) -> String {
+    run_with(toks, true)
+}
+
+fn run_with(toks: &[&str], timed: bool) -> String {
     let drift: u32 = p(toks[0]);
     let n: usize = p(toks[1]);
     let mut i = 2;
@@ -58,7 +79,12 @@ pub fn run(toks: &[&str]) -> String {
     let ctx = Context { mbox, dbox: dbox.clone(), channel_id: ChannelId::ShmWriter };
     vclock::set_real(NOW_S, NOW_N);
     vclock::enable(true);
+    let mut offs: Vec<i64> = Vec::new();
     for _ in 0..n {
+        if timed {
+            offs.push(p(toks[i]));
+            i += 1;
+        }
         match toks[i] {
             "r" => {
                 let v: Vec<i64> = toks[i + 1..i + 12].iter().map(|s| p::<i64>(s)).collect();
@@ -87,7 +113,10 @@ pub fn run(toks: &[&str]) -> String {
     let _ = std::fs::remove_file(&path);
     let w = ShmWriter::new(&path).expect("ShmWriter::new");
     let log = Rc::new(RefCell::new(Vec::new()));
-    let tee = Tee { w, r: None, path: std::ffi::CString::new(path.to_str().unwrap()).unwrap(), log: log.clone() };
+    if let Some(o) = offs.first() {
+        set_now_plus(*o);
+    }
+    let tee = Tee { w, r: None, path: std::ffi::CString::new(path.to_str().unwrap()).unwrap(), log: log.clone(), offs };
     let r = std::panic::catch_unwind(std::panic::AssertUnwindSafe(|| dverif::run_updater(ctx, tee, drift)));
     vclock::enable(false);
     if r.is_err() {
